@@ -238,7 +238,7 @@ def recursion_items(chk, F):
             chk.undecide("rec|%s|re" % ty, "missing anchor")
         else:
             r = unref(Interp(F, DOMK).call_body(body, [sp.operand("self")]))
-            chk.ob("rec|%s|re" % ty, isinstance(r, Sc) and equal(r.v, Poly.var("self.re")), "re() recurses into the real part",
+            chk.ob("rec|%s|re" % ty, isinstance(r, Sc) and equal(r.v, apply_fn("re", Poly.var("self.re"))), "re() recurses into the real part",
                    body_loc(F, body), found=repr(r), required="self.re.re()", nontrivial=False)
         body = F.impl_item(imp, "from_inner") if imp else None
         if body is None:
